@@ -1,12 +1,14 @@
 #!/bin/sh
 # tools/seedtest.sh <worktree-of-/repo-with-a-seeded-change> <Cxx> [tier]
 # Runs ./check Cxx against the given worktree instead of /repo, without touching /repo or the committed
-# evidence: the harness is copied to /tmp/vh-seed with its path dependencies rewritten.
+# evidence: the harness is copied to $SEEDTEST_DIR (default /tmp/vh-seed) with its path dependencies rewritten.
+# Use a different SEEDTEST_DIR per concurrent user.
 set -e
 WT=$1; P=$2; TIER=${3:-quick}
+D=${SEEDTEST_DIR:-/tmp/vh-seed}
 cd "$(dirname "$0")/.."
-mkdir -p /tmp/vh-seed
-rsync -a --delete --exclude target harness/ /tmp/vh-seed/
-sed -i "s#/repo/#$WT/#g" /tmp/vh-seed/Cargo.toml
-cp "$WT/Cargo.lock" /tmp/vh-seed/Cargo.lock 2>/dev/null || true
-VERIF_HARNESS=/tmp/vh-seed VERIF_WORK=/tmp/vh-seed-work VERIF_EVIDENCE=/tmp/vh-seed-evidence ./check "$P" --tier "$TIER"
+mkdir -p "$D"
+rsync -a --delete --exclude target harness/ "$D/"
+sed -i "s#/repo/#$WT/#g" "$D/Cargo.toml"
+cp "$WT/Cargo.lock" "$D/Cargo.lock" 2>/dev/null || true
+VERIF_HARNESS="$D" VERIF_WORK="$D-work" VERIF_EVIDENCE="$D-evidence" ./check "$P" --tier "$TIER"
